@@ -93,7 +93,9 @@ structure Module where
   dflt : TagDefault
   types : List TypeAssign
 
-/-- the type assigned to `name` (first assignment wins, like the hash lookup of the C code) -/
+/-- the type assigned to `name`.  (With two assignments of the same name — rejected anyway by
+    `asn1f_check_duplicate` — the C hash table returns one of them depending on its internal
+    state; the model takes the first.  `WfModule` excludes duplicate names.) -/
 def lookupIn : List TypeAssign → String → Option Ty
   | [], _ => none
   | a :: rest, n => if a.name = n then some a.ty else lookupIn rest n
